@@ -4,7 +4,7 @@
    [file], [violations], [rectify], [complete_input] are defined in
    Model/C13.v (written from check.py and writer.py with the fixes of
    fixes_proposed/C13-*.diff applied). *)
-From Coq Require Import String ZArith List Bool.
+From Coq Require Import String ZArith List Bool Permutation.
 From Verif Require Import Model.C13 Gen.CheckInventory Proofs.C13
   Proofs.C13_writer Proofs.C13_inventory.
 Import ListNotations.
@@ -60,6 +60,15 @@ Theorem C13_same_after_copy :
     same_content f g -> f_feats f = f_feats g -> violations f = violations g.
 Proof. exact same_after_copy. Qed.
 Print Assumptions C13_same_after_copy.
+
+(* ... and the cues do not depend on the storage order of the features. *)
+Theorem C13_violations_order_independent :
+  forall (f g : file) (n : Z),
+    same_content f g -> f_evcount f = Some n ->
+    exists cf cg, violations f = Some cf /\ violations g = Some cg
+                  /\ Permutation cf cg.
+Proof. exact violations_order_independent. Qed.
+Print Assumptions C13_violations_order_independent.
 
 (* Second sentence: each cue, for an arbitrary file [f] (nothing is assumed
    about the unrelated content) on which the checker terminates with the
